@@ -15,8 +15,9 @@ MaxLen  == atoi(Env("MAXLEN", "4"))
 Shard   == atoi(Env("SHARD", "0"))
 Shards  == atoi(Env("SHARDS", "1"))
 
-\* symbols 0..2: switch to bank 1..3; 3: run the low block; 4, 5: run high block 0 / 1
-NSym == 6
+\* symbols 0..2: switch to bank 1..3; 3: run the low block; 4, 5: run high block 0 / 1;
+\* with NSYM = 9 also 6..8: switch to bank 1..3 from a routine in work RAM that jumps straight into high block 0
+NSym == atoi(Env("NSYM", "6"))
 RECURSIVE PowR(_, _)
 PowR(b, e) == IF e = 0 THEN 1 ELSE b * PowR(b, e - 1)
 CountUpTo(n) == IF n = 0 THEN 0 ELSE LET RECURSIVE S(_) S(k) == IF k = 0 THEN 0 ELSE PowR(NSym, k) + S(k - 1) IN S(n)
@@ -37,7 +38,8 @@ Expect(h, i, bank) ==
   ELSE LET sym == h[i] IN
        IF sym < 3 THEN <<-1>> \o Expect(h, i + 1, sym + 1)
        ELSE IF sym = 3 THEN <<0>> \o Expect(h, i + 1, bank)
-       ELSE <<bank>> \o Expect(h, i + 1, bank)
+       ELSE IF sym < 6 THEN <<bank>> \o Expect(h, i + 1, bank)
+       ELSE <<sym - 5>> \o Expect(h, i + 1, sym - 5)
 
 Count == IF Total > Shard THEN ((Total - 1 - Shard) \div Shards) + 1 ELSE 0
 ASSUME PrintT(<<"GEN_CACHEHIST", Total, Count>>)
